@@ -8,6 +8,7 @@ import (
 	"bytes"
 	"context"
 	"encoding/json"
+	"errors"
 	"fmt"
 	"io"
 	"os"
@@ -154,10 +155,15 @@ func commonOpts(c caseSpec, ignored *[]string) []estargz.Option {
 	return o
 }
 
-func perLayerOpts(c caseSpec, img *imageSrc) map[digest.Digest][]estargz.Option {
+// perLayerOpts: the per-layer option map, keyed by the digest of the layer blob that is the
+// INPUT of this conversion step (in[j] for layer position j; repeated layers share a spec).
+func perLayerOpts(c caseSpec, in []digest.Digest) map[digest.Digest][]estargz.Option {
 	m := map[digest.Digest][]estargz.Option{}
 	for j, l := range c.Layers {
-		if l.DupOf >= 0 || l.Chunk == 0 {
+		if l.DupOf >= 0 {
+			l = c.Layers[l.DupOf]
+		}
+		if l.Chunk == 0 {
 			continue
 		}
 		o := []estargz.Option{estargz.WithChunkSize(l.Chunk)}
@@ -167,7 +173,7 @@ func perLayerOpts(c caseSpec, img *imageSrc) map[digest.Digest][]estargz.Option 
 		if l.Prio >= 0 {
 			o = append(o, estargz.WithPrioritizedFiles([]string{markerName(l.Prio)}))
 		}
-		m[img.Layers[j].Digest] = o
+		m[in[j]] = o
 	}
 	return m
 }
@@ -186,21 +192,21 @@ var (
 	mkExtLossless = externaltocconvert.LayerConvertLossLessFunc
 )
 
-func newConverter(c caseSpec, img *imageSrc) (converter.ConvertFunc, finalizeFunc) {
+func newConverter(c caseSpec, in []digest.Digest) (converter.ConvertFunc, finalizeFunc) {
 	ignored := new([]string)
 	switch c.Kind {
 	case kindEstargz:
 		return mkEstargz(commonOpts(c, ignored)...), nil
 	case kindEstargzPer:
-		return mkEstargzPer(perLayerOpts(c, img), commonOpts(c, ignored)...), nil
+		return mkEstargzPer(perLayerOpts(c, in), commonOpts(c, ignored)...), nil
 	case kindZstd:
 		return mkZstd(zstd.EncoderLevel(c.Level), commonOpts(c, ignored)...), nil
 	case kindZstdPer:
-		return mkZstdPer(zstd.EncoderLevel(c.Level), perLayerOpts(c, img)), nil
+		return mkZstdPer(zstd.EncoderLevel(c.Level), perLayerOpts(c, in)), nil
 	case kindExtTOC:
 		return mkExtTOC(commonOpts(c, ignored), c.Level)
 	case kindExtTOCPer:
-		return mkExtTOCPer(perLayerOpts(c, img), commonOpts(c, ignored), c.Level)
+		return mkExtTOCPer(perLayerOpts(c, in), commonOpts(c, ignored), c.Level)
 	case kindLossless:
 		return mkExtLossless(externaltocconvert.LayerConvertLossLessConfig{CompressionLevel: c.Level, ChunkSize: c.Chunk, MinChunkSize: c.MinChunk})
 	}
@@ -214,12 +220,105 @@ func convertRefs(c caseSpec, s *srcLayer) []string {
 	return []string{"convert-estargz-from-" + s.Digest.String()}
 }
 
-// leaveDanglingWriters simulates an interrupted earlier run: an ingest under the very
-// ref the converter will use, holding bytes that are not the blob, never committed.
-func leaveDanglingWriters(ctx context.Context, r *vf.Run, e *storeEnv, c caseSpec, img *imageSrc) int {
+var errInterrupted = errors.New("c19: conversion interrupted (injected)")
+
+// interruptingStore: the writers opened under a converter ref accept `limit` bytes and then
+// fail, which leaves the partial ingest in the store exactly like a killed conversion.
+type interruptingStore struct {
+	content.Store
+	limit int64
+}
+
+type interruptingWriter struct {
+	content.Writer
+	left int64
+}
+
+func (s *interruptingStore) Writer(ctx context.Context, opts ...content.WriterOpt) (content.Writer, error) {
+	var wo content.WriterOpts
+	for _, o := range opts {
+		if err := o(&wo); err != nil {
+			return nil, err
+		}
+	}
+	w, err := s.Store.Writer(ctx, opts...)
+	if err != nil {
+		return nil, err
+	}
+	if strings.HasPrefix(wo.Ref, "convert-estargz-from-") || strings.HasPrefix(wo.Ref, "convert-zstdchunked-from-") {
+		return &interruptingWriter{Writer: w, left: s.limit}, nil
+	}
+	return w, nil
+}
+
+func (w *interruptingWriter) Write(p []byte) (int, error) {
+	if int64(len(p)) <= w.left {
+		n, err := w.Writer.Write(p)
+		w.left -= int64(n)
+		return n, err
+	}
+	n, _ := w.Writer.Write(p[:w.left])
+	w.left -= int64(n)
+	return n, errInterrupted
+}
+
+// otherOptions: an option set of the same converter kind that builds other bytes
+// (chunk size, level, prioritized file), for the interrupted earlier attempt.
+func otherOptions(c caseSpec) caseSpec {
+	a := c
+	a.Chunk = 777
+	a.Prio = (c.Prio + 2) % nMarkers // -1 -> 1
+	if c.family() == "zstdchunked" {
+		a.Level = c.Level%3 + 1
+	} else if c.Level == 1 {
+		a.Level = 6
+	} else {
+		a.Level = 1
+	}
+	a.Layers = append([]layerSpec{}, c.Layers...)
+	for j := range a.Layers {
+		if a.Layers[j].Chunk > 0 {
+			a.Layers[j].Chunk += 41
+		}
+		a.Layers[j].Prio = (a.Layers[j].Prio + 2) % nMarkers
+	}
+	return a
+}
+
+// leaveDanglingWriters simulates an interrupted earlier run: an ingest under the very ref
+// the converter will use, never committed, holding either garbage (100 B or 40 kB) or the
+// first 64/500/1500 bytes that a conversion of the same layer with ANOTHER option set wrote
+// before it was interrupted.
+func leaveDanglingWriters(ctx context.Context, r *vf.Run, e *storeEnv, c caseSpec, img *imageSrc, in []digest.Digest) int {
 	n := 0
+	var alt converter.ConvertFunc
 	for j, l := range c.Layers {
 		if l.DupOf >= 0 || !l.Dangling {
+			continue
+		}
+		if l.Interrupted {
+			if alt == nil {
+				alt, _ = newConverter(otherOptions(c), in)
+			}
+			s := img.Layers[j]
+			d := ocispec.Descriptor{MediaType: s.MediaType, Digest: s.Digest, Size: int64(len(s.Blob))}
+			if s.Annotations != nil {
+				d.Annotations = cp(s.Annotations)
+			}
+			is := &interruptingStore{Store: e.cs, limit: []int64{64, 500, 1500}[j%3]}
+			var err error
+			panicked, _, _ := vf.Recover(func() { _, err = alt(ctx, is, d) })
+			switch {
+			case panicked:
+				r.Inconclusive("the interrupted earlier attempt panicked")
+			case errors.Is(err, errInterrupted):
+				r.Count("interrupted_conversions_with_other_options_left_partial_ingest", 1)
+				n++
+			case err == nil:
+				r.Count("interrupted_conversions_that_completed", 1)
+			default:
+				r.Inconclusive("the interrupted earlier attempt failed otherwise: " + errClass(err))
+			}
 			continue
 		}
 		for k, ref := range convertRefs(c, img.Layers[j]) {
@@ -281,12 +380,97 @@ func runCase(r *vf.Run, c caseSpec, dir string) {
 			cancel()
 			return
 		}
-		if n := leaveDanglingWriters(ctx, r, env, c, img); n > 0 {
+		in := make([]digest.Digest, len(img.Layers))
+		for j, s := range img.Layers {
+			in[j] = s.Digest
+		}
+		if n := leaveDanglingWriters(ctx, r, env, c, img, in); n > 0 {
 			r.Count("dangling_writers_left_under_converter_refs", n)
 		}
-		runConversion(ctx, r, c, img, env, root, rep, retry, build)
+		first := convStep{root: root, in: in, plans: c.manifests(), allowIndex: true}
+		res := runConversion(ctx, r, c, img, env, first, rep, retry, build)
+		if res != nil && rep == c.Reps-1 && c.Reconvert != "" {
+			if second, ok := secondStep(ctx, r, c, img, env, res); ok {
+				runConversion(ctx, r, c, img, env, second, rep, retry, build)
+			}
+		}
 		cancel()
 	}
+}
+
+// convStep is one conversion: the image to convert and, per layer position of the case,
+// the digest of the layer blob that is the input of this step.
+type convStep struct {
+	name       string // "" = the generated source image | "already-converted-input" | "partly-converted-input"
+	root       ocispec.Descriptor
+	in         []digest.Digest
+	plans      []manifestPlan
+	allowIndex bool
+}
+
+// convResult is what a successful step leaves for the next one.
+type convResult struct {
+	final  ocispec.Descriptor
+	mans   []manifestDoc
+	byPos  map[int]*convLayer // layer position -> converted layer (positions of repeated layers included)
+	diffID map[string]string  // converted digest -> sha256 of the decompressed blob
+}
+
+// secondStep builds the input of the two-step history: the converted image itself ("all"), or
+// a new single-manifest image that shares the already converted layers at the even positions
+// and has the original source layers at the odd ones ("mixed").
+func secondStep(ctx context.Context, r *vf.Run, c caseSpec, img *imageSrc, e *storeEnv, res *convResult) (convStep, bool) {
+	n := len(c.Layers)
+	st := convStep{in: make([]digest.Digest, n)}
+	for j := 0; j < n; j++ {
+		cl := res.byPos[j]
+		if cl == nil {
+			r.Inconclusive("second step: a layer of the first conversion is not known")
+			return st, false
+		}
+	}
+	if c.Reconvert == "all" {
+		st.name, st.root, st.plans, st.allowIndex = "already-converted-input", res.final, c.manifests(), true
+		for j := 0; j < n; j++ {
+			st.in[j] = res.byPos[j].rec.out.Digest
+		}
+		return st, true
+	}
+	// mixed: manifest 0 of the converted image lists all layers in case order
+	if len(res.mans) == 0 || len(res.mans[0].Layers) != n {
+		r.Inconclusive("second step: converted manifest has an unexpected shape")
+		return st, false
+	}
+	var layers []ocispec.Descriptor
+	var diffIDs []string
+	for j := 0; j < n; j++ {
+		if j%2 == 0 {
+			d := res.mans[0].Layers[j]
+			layers = append(layers, d)
+			diffIDs = append(diffIDs, res.diffID[d.Digest.String()])
+			st.in[j] = d.Digest
+		} else {
+			s := img.Layers[j]
+			d := ocispec.Descriptor{MediaType: s.MediaType, Digest: s.Digest, Size: int64(len(s.Blob))}
+			if s.Annotations != nil {
+				d.Annotations = cp(s.Annotations)
+			}
+			layers = append(layers, d)
+			diffIDs = append(diffIDs, s.DiffID)
+			st.in[j] = s.Digest
+		}
+	}
+	root, err := writeManifest(ctx, e, c, "mixed", layers, diffIDs)
+	if err != nil {
+		r.Inconclusive("second step: the mixed image could not be written: " + errClass(err))
+		return st, false
+	}
+	all := make([]int, n)
+	for j := range all {
+		all[j] = j
+	}
+	st.name, st.root, st.plans = "partly-converted-input", root, []manifestPlan{{Arch: "amd64", Layers: all}}
+	return st, true
 }
 
 type convReplay struct {
@@ -294,26 +478,33 @@ type convReplay struct {
 	Desc  string   `json:"descriptor"`
 	Rep   int      `json:"repetition"`
 	Retry bool     `json:"retry_in_same_store"`
+	Step  string   `json:"step,omitempty"`
 	Build string   `json:"build"`
 	Layer string   `json:"layer,omitempty"`
 	More  any      `json:"detail,omitempty"`
 }
 
-func runConversion(ctx context.Context, r *vf.Run, c caseSpec, img *imageSrc, e *storeEnv, root ocispec.Descriptor, rep int, retry bool, build string) {
+// runConversion converts st.root with ONE fresh converter instance and checks everything;
+// it returns nil unless the step completed and could be read back.
+func runConversion(ctx context.Context, r *vf.Run, c caseSpec, img *imageSrc, e *storeEnv, st convStep, rep int, retry bool, build string) *convResult {
+	root := st.root
 	r.Eval(1)
 	r.Count("conversions_"+c.Kind, 1)
+	if st.name != "" {
+		r.Count("conversions_of_"+st.name, 1)
+	}
 	rp := func(layer string, more any) convReplay {
-		return convReplay{Case: c, Desc: c.desc(), Rep: rep, Retry: retry, Build: build, Layer: layer, More: more}
+		return convReplay{Case: c, Desc: c.desc(), Rep: rep, Retry: retry, Step: st.name, Build: build, Layer: layer, More: more}
 	}
 	rc := &recorder{slots: map[digest.Digest]*slot{}, labeled: e.labels != nil}
-	for _, s := range img.Layers {
-		if rc.slots[s.Digest] == nil {
-			rc.slots[s.Digest] = &slot{}
+	for _, d := range st.in {
+		if rc.slots[d] == nil {
+			rc.slots[d] = &slot{}
 		}
 	}
-	lcf, finalize := newConverter(c, img) // ONE instance for the whole image
+	lcf, finalize := newConverter(c, st.in) // ONE instance for the whole image
 	var mc platforms.MatchComparer = platforms.DefaultStrict()
-	if c.Index {
+	if c.Index && st.allowIndex {
 		mc = platforms.All
 	}
 	cf := converter.DefaultIndexConvertFunc(rc.wrap(lcf), c.Docker2OCI, mc)
@@ -331,7 +522,7 @@ func runConversion(ctx context.Context, r *vf.Run, c caseSpec, img *imageSrc, e 
 	if panicked {
 		class, site, _ := crashSignatureText(fmt.Sprintf("panic: %v\n\ngoroutine 1 [running]:\n%s\n\n", pv, stack))
 		r.Violate(class+"@"+site+":convert:"+c.Kind, fmt.Sprintf("the conversion panicked: %v", pv), rp("", map[string]any{"stack": tail(stack, 3000)}))
-		return
+		return nil
 	}
 	recs := rc.all()
 	if os.Getenv("VERIF_C19_TIMING") != "" {
@@ -342,11 +533,11 @@ func runConversion(ctx context.Context, r *vf.Run, c caseSpec, img *imageSrc, e 
 	if cerr != nil {
 		r.Inconclusive("conversion returned an error (" + c.Kind + "): " + errClass(cerr))
 		r.Distinct("conversion_errors", c.Kind+": "+errClass(cerr))
-		return
+		return nil
 	}
 	if rc.overflow.Load() > 0 || rc.unknown.Load() > 0 {
 		r.Inconclusive("recorder: a layer call could not be recorded")
-		return
+		return nil
 	}
 
 	// ---- overlap actually observed (non-triviality) --------------------------------
@@ -365,26 +556,30 @@ func runConversion(ctx context.Context, r *vf.Run, c caseSpec, img *imageSrc, e 
 	mans, err := readManifests(e, final)
 	if err != nil {
 		r.Inconclusive("converted image cannot be read back: " + errClass(err))
-		return
+		return nil
 	}
-	plans := c.manifests()
+	plans := st.plans
 	if len(mans) != len(plans) {
 		r.Inconclusive("converted image has another number of manifests than the source")
-		return
+		return nil
 	}
 
 	// ---- every returned layer descriptor -----------------------------------------
 	ok := true
 	converted := map[string]*convLayer{} // by converted digest
+	res := &convResult{final: final, mans: mans, byPos: map[int]*convLayer{}, diffID: map[string]string{}}
 	srcIdx := map[digest.Digest]int{}
-	for j, s := range img.Layers {
-		if _, dup := srcIdx[s.Digest]; !dup {
-			srcIdx[s.Digest] = j
+	for j, d := range st.in {
+		if _, dup := srcIdx[d]; !dup {
+			srcIdx[d] = j
 		}
 	}
 	for _, rec := range recs {
 		j := srcIdx[rec.in.Digest]
 		lname := fmt.Sprintf("layer %d (%s, source %s)", j, c.Layers[j].Src, rec.in.MediaType)
+		if st.name != "" {
+			lname += " [" + st.name + "]"
+		}
 		if !rec.completed {
 			r.Inconclusive("a layer ConvertFunc did not return")
 			ok = false
@@ -400,10 +595,16 @@ func runConversion(ctx context.Context, r *vf.Run, c caseSpec, img *imageSrc, e 
 		r.Count("layers_converted", 1)
 		r.Distinct("media_type_transitions", c.family()+": "+rec.in.MediaType+" -> "+rec.out.MediaType)
 		cl := &convLayer{rec: rec, j: j}
-		if !checkLayer(r, c, img, e, rec, j, lname, rp, &cl.blob, &cl.toc) {
+		if !checkLayer(r, c, img, e, rec, j, st.name == "", lname, rp, cl) {
 			ok = false
 		}
 		converted[rec.out.Digest.String()] = cl
+		res.diffID[rec.out.Digest.String()] = cl.diffID
+		for jj, d := range st.in {
+			if d == rec.in.Digest {
+				res.byPos[jj] = cl
+			}
+		}
 	}
 
 	// the layers of the converted manifests must be the descriptors the ConvertFunc returned
@@ -415,7 +616,7 @@ func runConversion(ctx context.Context, r *vf.Run, c caseSpec, img *imageSrc, e 
 		}
 		for li, l := range m.Layers {
 			if _, okc := converted[l.Digest.String()]; !okc {
-				if img.Layers[plans[mi].Layers[li]].Digest == l.Digest {
+				if st.in[plans[mi].Layers[li]] == l.Digest {
 					continue // left unconverted
 				}
 				r.Inconclusive("converted manifest names a layer no ConvertFunc call returned")
@@ -446,7 +647,7 @@ func runConversion(ctx context.Context, r *vf.Run, c caseSpec, img *imageSrc, e 
 
 	// ---- external TOC image ---------------------------------------------------------
 	if finalize != nil {
-		ref := fmt.Sprintf("registry.invalid/c19/img%d:rep%d", c.Idx, rep)
+		ref := fmt.Sprintf("registry.invalid/c19/img%d:rep%d%s", c.Idx, rep, st.name)
 		var timg *images.Image
 		var ferr error
 		panicked, pv, stack := vf.Recover(func() { timg, ferr = finalize(ctx, e.cs, ref, &final) })
@@ -462,15 +663,19 @@ func runConversion(ctx context.Context, r *vf.Run, c caseSpec, img *imageSrc, e 
 			if timg.Name != ref+"-esgztoc" {
 				r.Violate("toc-image:name", "the TOC image is not named <ref>-esgztoc", rp("", map[string]any{"name": timg.Name, "ref": ref}))
 			}
-			if !checkTOCImage(r, c, img, e, timg, converted, rp) {
+			if !checkTOCImage(r, c, img, e, timg, converted, st.name, rp) {
 				ok = false
 			}
 		}
 	}
 
 	if ok && overlaps > 0 && len(converted) > 0 {
-		r.NonTrivial(fmt.Sprintf("%s|rep%d|%s", c.desc(), rep, build))
+		r.NonTrivial(fmt.Sprintf("%s|rep%d|%s|%s", c.desc(), rep, build, st.name))
 	}
+	if !ok {
+		return nil
+	}
+	return res
 }
 
 func concurrency(recs []*callRec) (maxConc, overlaps int) {
@@ -578,12 +783,15 @@ func compressionOfMediaType(mt string) string {
 }
 
 // checkLayer recomputes every claim of one returned layer descriptor.
-func checkLayer(r *vf.Run, c caseSpec, img *imageSrc, e *storeEnv, rec *callRec, j int, lname string,
-	rp func(string, any) convReplay, blobOut *[]byte, tocOut **tocDoc) bool {
+func checkLayer(r *vf.Run, c caseSpec, img *imageSrc, e *storeEnv, rec *callRec, j int, firstStep bool, lname string,
+	rp func(string, any) convReplay, cl *convLayer) bool {
 	out := rec.out
 	fam := c.family()
 	src := img.Layers[j]
 	scen := srcScenario(c, j)
+	if !firstStep {
+		scen = "already-converted-input"
+	}
 
 	// (1) digest and size are those of the committed blob
 	blob, err := e.blobBytes(out.Digest.String())
@@ -591,7 +799,7 @@ func checkLayer(r *vf.Run, c caseSpec, img *imageSrc, e *storeEnv, rec *callRec,
 		r.Violate("descriptor:blob-not-in-store:"+fam, "the returned descriptor names a digest under which the content store holds no blob", rp(lname, map[string]any{"returned": out}))
 		return false
 	}
-	*blobOut = blob
+	cl.blob = blob
 	if got := sha256Digest(blob); got != out.Digest.String() {
 		r.Violate("descriptor:digest-mismatch:"+fam, "the returned digest is not the SHA-256 of the committed blob", rp(lname, map[string]any{"returned": out, "sha256_of_blob": got}))
 	}
@@ -611,9 +819,11 @@ func checkLayer(r *vf.Run, c caseSpec, img *imageSrc, e *storeEnv, rec *callRec,
 	// (3) uncompressed size annotation and uncompressed label
 	ulen, diffID, err := decompressAll(blob)
 	if err != nil {
-		r.Violate("descriptor:blob-does-not-decompress:"+fam, "the committed blob cannot be decompressed: "+errClass(err), rp(lname, nil))
+		r.Violate("descriptor:blob-does-not-decompress:"+fam+":"+scen, "the committed blob cannot be decompressed: "+errClass(err),
+			rp(lname, map[string]any{"returned": out, "blob_length": len(blob)}))
 		return false
 	}
+	cl.diffID = diffID
 	if v, okA := out.Annotations[annUncompressedSize]; !okA {
 		r.Violate("annotation:uncompressed-size-missing:"+fam, "the returned descriptor has no "+annUncompressedSize+" annotation", rp(lname, map[string]any{"returned": out}))
 	} else if v != strconv.FormatInt(ulen, 10) {
@@ -677,7 +887,7 @@ func checkLayer(r *vf.Run, c caseSpec, img *imageSrc, e *storeEnv, rec *callRec,
 			r.Violate("blob:toc-json-invalid:"+fam, "the TOC JSON does not parse", rp(lname, nil))
 			return false
 		}
-		*tocOut = toc
+		cl.toc = toc
 		checkTOCAgainstLayer(r, c, img, j, toc, lname, rp)
 		if fam == "zstdchunked" {
 			checkZstdManifestAnnotations(r, c, out, ctoc, loc, tocJSON, lname, rp)
@@ -686,10 +896,17 @@ func checkLayer(r *vf.Run, c caseSpec, img *imageSrc, e *storeEnv, rec *callRec,
 	return true
 }
 
-// srcScenario: part of the size/digest keys — only whether the converter found a dangling
-// writer under its ref (the Truncate(0) path) matters there.
+// srcScenario: part of the size/digest/decompression keys — what the converter found under
+// its writer ref (the Truncate(0) path).
 func srcScenario(c caseSpec, j int) string {
-	if c.Layers[j].Dangling {
+	l := c.Layers[j]
+	if l.DupOf >= 0 {
+		l = c.Layers[l.DupOf]
+	}
+	switch {
+	case l.Dangling && l.Interrupted:
+		return "after-interrupted-conversion-with-other-options"
+	case l.Dangling:
 		return "after-dangling-writer"
 	}
 	return "fresh-ref"
@@ -872,8 +1089,9 @@ func checkZstdManifestAnnotations(r *vf.Run, c caseSpec, out *ocispec.Descriptor
 
 // convLayer is one converted layer as returned by the ConvertFunc.
 type convLayer struct {
-	rec  *callRec
-	j    int // a layer position of the case with this source digest
-	blob []byte
-	toc  *tocDoc
+	rec    *callRec
+	j      int // a layer position of the case with this source digest
+	blob   []byte
+	toc    *tocDoc
+	diffID string // sha256 of the decompressed blob (recomputed)
 }
